@@ -201,3 +201,42 @@ class PairRoles:
 
     def calls_to(self, fn, callee):
         return [b for b, p, fr, t in self.P.calls(fn) if p and (generic_path(p) == callee.path or p == callee.path)]
+
+
+class RouterRoles:
+    def __init__(self, P):
+        self.P = P
+        self.execute, self.arms = dispatch_arms(P, "router")
+        self.accept = handler_of(P, "router", "ExecuteSwapOperations")
+        self.hop = handler_of(P, "router", "ExecuteSwapOperation")
+        self.assertion = handler_of(P, "router", "AssertMinimumReceive")
+        self.hook = hook_handler_of(P, "router", "ExecuteSwapOperations")
+        self.acceptor = self.accept[3]
+        if self.hook[3].path != self.acceptor.path:
+            raise AnchorMissing("router direct and hook entry points reach different acceptors")
+        self.hop_handler = self.hop[3]
+        self.assert_handler = self.assertion[3]
+        self.recv_fn = handler_of(P, "router", "Receive")[3]
+        # hop builder: workspace callee of the hop handler returning StdResult<CosmosMsg>
+        hb = []
+        for b, p, fr, t in P.calls(self.hop_handler):
+            if is_workspace_fn(P, p):
+                g = P.fn(p) or P.fn(generic_path(p))
+                if g.sig and re.search(r"-> std::result::Result<cosmwasm_std::CosmosMsg(<\w+>)?, cosmwasm_std::StdError>", g.sig):
+                    hb.append((b, g))
+        if len(hb) != 1:
+            raise AnchorMissing("hop builder (callee of the hop handler returning StdResult<CosmosMsg>): %d candidates" % len(hb))
+        self.hop_builder_call, self.hop_builder = hb[0]
+
+
+class FactoryRoles:
+    def __init__(self, P):
+        self.P = P
+        self.execute, self.arms = dispatch_arms(P, "factory")
+        self.update_config = handler_of(P, "factory", "UpdateConfig")
+        self.create_pair = handler_of(P, "factory", "CreatePair")
+        self.add_decimals = handler_of(P, "factory", "AddNativeTokenDecimals")
+        self.migrate_pair = handler_of(P, "factory", "MigratePair")
+        self.reply = entry(P, "factory", "reply")
+        self.query = entry(P, "factory", "query")
+        self.instantiate = entry(P, "factory", "instantiate")
